@@ -75,7 +75,7 @@ func (w *World) srcOfSameInput(v ssa.Value, recv ssa.Value) (*ssa.Call, string) 
 		return nil, "source " + w.key(v) + " is not a result of the relay read/accept"
 	}
 	rk := w.key(recv)
-	switch call.Call.Method.Name() {
+	switch nm(call.Call.Method) {
 	case "ReadFrom":
 		if idx == 1 && w.key(call.Call.Value) == "*@"+rk+".relayPacketConn" {
 			return call, ""
@@ -409,20 +409,25 @@ func ruleAddrDeps(c *Ctx, rule string) {
 		bad := ""
 		n := 0
 		for _, ret := range returnsOf(fn) {
-			v := w.resolveLoad(ret.Results[0])
-			if isNilConst(v) {
-				continue
-			}
-			n++
-			g := w.guardedBy(ret, eq, -1, "true", func(g *ssa.Call) bool {
-				a0, a1 := g.Call.Args[0], g.Call.Args[1]
-				return (w.isFieldLoadOf(a0, v, "Peer") && w.sameKey(a1, fn.Params[1])) || (w.isFieldLoadOf(a1, v, "Peer") && w.sameKey(a0, fn.Params[1]))
-			})
-			if g == nil {
-				bad = "returns an element at " + w.instrPos(ret) + " without AddrEqual(element.Peer, addr) being true"
-			}
-			if !derivesFromTable(w, v, w.Field("allocation", "Allocation", "channelBindings")) {
-				bad = "returns " + w.desc(v) + " at " + w.instrPos(ret) + ", which is not an element read from the live channelBindings table (a remembered binding survives its expiry)"
+			for _, lf := range w.guardedLeaves(ret.Results[0], ret) {
+				v := lf.val
+				if isNilConst(v) {
+					continue
+				}
+				n++
+				okEq := false
+				for _, g := range w.guardCallsIn(lf.facts, eq, -1, "true", 2) {
+					a0, a1 := g.Call.Args[0], g.Call.Args[1]
+					if (w.isFieldLoadOf(a0, v, "Peer") && w.sameKey(a1, fn.Params[1])) || (w.isFieldLoadOf(a1, v, "Peer") && w.sameKey(a0, fn.Params[1])) {
+						okEq = true
+					}
+				}
+				if !okEq {
+					bad = "returns an element (selected at " + lf.at + ") without AddrEqual(element.Peer, addr) being true"
+				}
+				if !derivesFromTable(w, v, w.Field("allocation", "Allocation", "channelBindings")) {
+					bad = "returns " + w.desc(v) + " at " + w.instrPos(ret) + ", which is not an element read from the live channelBindings table (a remembered binding survives its expiry)"
+				}
 			}
 		}
 		if bad == "" && n > 0 {
